@@ -92,8 +92,19 @@ def _borrow(pid, pname, n_quick, n_thorough, harness=None):
         m = importlib.import_module("specs_" + pid.lower())
         part = [p for p in m.SPEC[pid]["parts"] if p["name"] == pname][0]
         return part["gen"](rng, tier)[: (n_thorough if tier == "thorough" else n_quick)]
-    return {"name": "rt-" + pname, "harness": harness or pname, "model": "Rt", "runtime": True, "gen": gen,
+    part = {"name": "rt-" + pname, "harness": harness or pname, "model": "Rt", "runtime": True, "gen": gen,
             "nontrivial": lambda s: s["hist"].get("w F#.state", 0) >= 8}
+
+    def build():
+        import importlib
+        m = importlib.import_module("specs_" + pid.lower())
+        src = [p for p in m.SPEC[pid]["parts"] if p["name"] == pname][0]
+        if callable(src.get("build")):
+            return src["build"]()
+        import vlib
+        return vlib.build_harness(harness or pname, runtime=True)
+    part["build"] = build
+    return part
 
 
 SPEC = {
@@ -106,8 +117,9 @@ SPEC = {
                   _borrow("C11", "chan-unbounded", 60, 800, harness="chan"),
                   _borrow("C11", "chan-sp", 60, 800, harness="chan"),
                   _borrow("C11", "multichan", 80, 1000, harness="multichan"),
-                  _borrow("C06", "sem", 80, 1000), _borrow("C20", "multisignal", 80, 1000)],
-        "rule": "cases = (mixed program over yield/mutex/semaphore/sleep/join for 2-7 fibers, plus the scripts of the mutex, condition-variable, rwlock, barrier, signal, channel (bounded/unbounded/sp), multi-channel, semaphore and multi-signal harnesses followed by the runtime model, 1-4 kernel threads, scheduler kind+seed) from VERIF_SEED; distinct = different (script, sha1 of the access sequence); non-trivial = a fiber was stolen by another kernel thread or at least 12 state-word writes happened",
+                  _borrow("C06", "sem", 80, 1000), _borrow("C20", "multisignal", 80, 1000),
+                  _borrow("C09", "sleep", 80, 1000)],
+        "rule": "cases = (mixed program over yield/mutex/semaphore/sleep/join for 2-7 fibers, plus the scripts of the mutex, condition-variable, rwlock, barrier, signal, channel (bounded/unbounded/sp), multi-channel, semaphore, multi-signal and sleep (virtual clock) harnesses followed by the runtime model, 1-4 kernel threads, scheduler kind+seed) from VERIF_SEED; distinct = different (script, sha1 of the access sequence); non-trivial = a fiber was stolen by another kernel thread or at least 12 state-word writes happened",
         "trusted_base": [
             "run queues as bags at the deque API (rqpush/rqpop/rqsteal call-site events; deque internals = model Wsd, C02)",
             "publication of a waiting fiber reduces to two rules (self-published with SAVING / published by the successor's maintenance); a primitive publishing otherwise is rejected at run time by the model's wake guard",
